@@ -307,6 +307,22 @@ func keysOfWrite(d *declInfo, rs *ast.RangeStmt, keyObj types.Object, stmt ast.N
 				if !ok {
 					continue
 				}
+				if sw.Tag == nil && len(s.List) == 1 {
+					// tagless switch: `case key == K:`
+					if be, ok := s.List[0].(*ast.BinaryExpr); ok && be.Op == token.EQL {
+						var k ast.Expr
+						if isKey(be.X) {
+							k = be.Y
+						} else if isKey(be.Y) {
+							k = be.X
+						}
+						if k != nil {
+							if _, isC := constOf(d.pkg, k); isC {
+								best, names = 1, types.ExprString(k)
+							}
+						}
+					}
+				}
 				if sw.Tag != nil && isKey(sw.Tag) && s.List != nil {
 					allConst := true
 					var ns []string
